@@ -166,6 +166,9 @@ DS = directed.DS
 GRAPHS = {
     "single": directed.prog(DS(1), d1={"args": [["a", O("A", dk="const", dv=0)]], "effects": ["e"]}),
     "chain": directed.prog(DS(2), d1={"args": [["a", O("A", dk="const", dv=0)]]}, d2={"args": [["x", DS(1)], ["b", O("B", dk="const", dv=0)]], "callback": "c1"}),
+    # callbacks that are callables without a __name__ (functools.partial on odd, a callable object on even dataset ids):
+    # a backend's failure report must not depend on what the graph it was handed looks like when printed
+    "callables": directed.prog(DS(2), d1={"args": [["a", O("A", dk="const", dv=0)]], "callback": "c2"}, d2={"args": [["x", DS(1)], ["b", O("B", dk="const", dv=0)]], "callback": "c2"}),
     "diamond": directed.prog(DS(4), d1={"args": [["a", O("A", dk="const", dv=0)]]}, d2={"args": [["x", DS(1)]]}, d3={"args": [["x", DS(1)], ["b", O("B", dk="const", dv=0)]]},
                              d4={"args": [["l", DS(2)], ["r", DS(3)]]}),
     "overload": directed.prog(DS(1), d1={"args": [["a", O("A", dk="const", dv=0)]], "dispatch": "D", "overloads": [["x", {"args": [["b", O("B", dk="const", dv=1)]]}], ["y", {"expr": O("A", dk="const", dv="ya")}],
